@@ -97,7 +97,7 @@ Auth(c, cc) == [forCmd |-> c, cc |-> cc, dec |-> TRUE, sig |-> TRUE, flag |-> TR
 Outcome(o) ==   \* datagrams arriving <<now, late>> for outcome o
   LET c == cur.cmd IN
   CASE o.kind = "final"    -> << <<Auth(c, o.cc)>>, <<>> >>
-    [] o.kind = "trunc"    -> << <<[Auth(c, "ok") EXCEPT !.bodyOK = FALSE, !.kind = "trunc"]>>, <<>> >>
+    [] o.kind = "trunc"    -> << <<[Auth(c, "ok") EXCEPT !.bodyOK = (c \notin NeedsBody), !.kind = "trunc"]>>, <<>> >>
     [] o.kind = "garbage"  -> << <<[Auth(c, "ok") EXCEPT !.dec = FALSE, !.sig = FALSE, !.kind = "garbage"]>>, <<>> >>
     [] o.kind = "lost"     -> << <<>>, <<>> >>
     [] o.kind = "xerr"     -> << <<>>, <<>> >>
